@@ -149,6 +149,25 @@ func TestSweep(t *testing.T) {
 	vp.Exhaustive("every octet position x 256 values and every nibble position x 16 values, other positions fixed", true)
 }
 
+// keyMappedIP6 names the open finding: the ip6.arpa name of an address in
+// ::ffff:0:0/96 is accepted and decoded to that IPv4-mapped address, whose
+// canonical name (IPToReversedAddr, RFC 1035 form) is an in-addr.arpa name.
+const keyMappedIP6 = "ip6-arpa-name-of-mapped-address"
+
+// TestKnownMappedIP6 re-demonstrates the open finding on its recorded input.
+func TestKnownMappedIP6(t *testing.T) {
+	if !vp.Known(keyMappedIP6) {
+		return
+	}
+	const name = "4.0.3.0.2.0.1.0.f.f.f.f.0.0.0.0.0.0.0.0.0.0.0.0.0.0.0.0.0.0.0.0.ip6.arpa"
+	a, err := netutil.IPFromReversedAddr(name)
+	if err != nil || !a.Is4In6() {
+		return // no longer reproduces: nothing to report
+	}
+	canon, _ := netutil.IPToReversedAddr(a.AsSlice())
+	vp.KnownFinding(fmt.Sprintf("key=%s IPFromReversedAddr accepts the 32-nibble ip6.arpa name of an address in ::ffff:0:0/96 (e.g. %s) and returns %v, whose canonical name is %q", keyMappedIP6, name, a, canon))
+}
+
 // AcceptCase is an arbitrary text offered to the decoder.
 type AcceptCase struct {
 	S vp.S `json:"s"`
@@ -169,8 +188,15 @@ func checkAccept(s string) (accepted bool, err error) {
 	if !a.IsValid() {
 		return true, fmt.Errorf("IPFromReversedAddr(%s) returned the zero Addr without an error", vp.Q(s))
 	}
+	if a.Is4In6() && a.Zone() == "" && vp.Known(keyMappedIP6) && model.ASCIILower(strings.TrimSuffix(s, ".")) == model.CanonARPA6(a.As16()) {
+		// The recorded open finding (see known_findings.txt): exactly the
+		// 32-nibble ip6.arpa spelling of the mapped address returned.  Any
+		// other way of obtaining a mapped or zoned result is still reported.
+		vp.Excluded(keyMappedIP6)
+		return true, nil
+	}
 	if a.Is4In6() || a.Zone() != "" {
-		return true, fmt.Errorf("IPFromReversedAddr(%s) returned %v (mapped or zoned)", vp.Q(s), a)
+		return true, fmt.Errorf("IPFromReversedAddr(%s) returned %v (mapped or zoned), whose canonical name is %q", vp.Q(s), a, model.CanonARPA(a))
 	}
 	got := model.ASCIILower(strings.TrimSuffix(s, "."))
 	if want := model.CanonARPA(a); got != want {
@@ -194,6 +220,11 @@ var acceptProp = vp.Register(vp.Prop[AcceptCase]{
 				a = gen.Addr4().Draw(t, "a4")
 			}
 			canon := model.CanonARPA(a)
+			if a.Is6() && rapid.Bool().Draw(t, "ip6form") {
+				// The ip6.arpa spelling even of IPv4-mapped (and near-mapped)
+				// addresses.
+				canon = model.CanonARPA6(a.As16())
+			}
 			ls := strings.Split(canon, ".")
 			switch rapid.IntRange(0, 5).Draw(t, "mut") {
 			case 0:
